@@ -46,7 +46,11 @@ def streams(ctx):
             stream += f
             if rng.random() < 0.15:
                 stream += [rng.randrange(256) for _ in range(rng.randrange(1, 4))]
-        lines.append("Feed " + gc.fmt(stream))
+        if i % 4 == 0 and len(stream) > 3:      # the receiver is initialised again in the middle of the stream (often in the middle of a frame)
+            k = rng.randrange(1, len(stream))
+            lines += ["Feed " + gc.fmt(stream[:k]), "Reinit", "Feed " + gc.fmt(stream[k:])]
+        else:
+            lines.append("Feed " + gc.fmt(stream))
     # (b2) frames around the 8-bit boundary: payloads of 250..258 bytes into buffers of 255..300 bytes (counts and sizes
     # that do not fit a byte), back to back, all three receivers
     for i in range(400 if thorough else 15):
@@ -145,6 +149,9 @@ def replay(ctx, path):
             feed.append(e["c"])
         elif e["e"] == "RecvRun":
             feed += e["cs"]
+        elif e["e"] == "Reinit":
+            if feed: lines.append("Feed " + gc.fmt(feed)); feed = []
+            lines.append("Reinit")
         elif e["e"] == "Encode":
             if feed: lines.append("Feed " + gc.fmt(feed)); feed = []
             lines.append("Enc %s %s" % (e["variant"], gc.fmt(e["p"])))
